@@ -110,6 +110,8 @@ type written struct {
 	from    string
 	to      string
 	body    []byte // what must read back
+	// mode direct@meta: the full metadata that was handed to AddMessage (nil meta: the plain fields above)
+	meta *oddMeta
 }
 
 // content builds the source of message number tag with exactly size bytes where possible
@@ -160,6 +162,7 @@ type runner struct {
 	nadds  int
 	held   []heldList
 	dir    string // file store: the path, for re-opening with another cap
+	metaMode bool
 	target string // deliver mode: mailbox the BeforeMessageStored listener routes to
 }
 
@@ -227,11 +230,15 @@ func (r *runner) view(mb int, m storage.Message) string {
 	if m.Mailbox() != r.names[mb] {
 		bad += "m"
 	}
-	if m.Subject() != w.subject && r.mode == "direct" {
-		bad += "s"
-	}
-	if r.mode == "direct" && (addrStr(m.From()) != w.from || len(m.To()) != 1 || addrStr(m.To()[0]) != w.to) {
-		bad += "a"
+	if w.meta != nil {
+		bad += w.meta.diff(m)
+	} else {
+		if m.Subject() != w.subject && r.mode == "direct" {
+			bad += "s"
+		}
+		if r.mode == "direct" && (addrStr(m.From()) != w.from || len(m.To()) != 1 || addrStr(m.To()[0]) != w.to) {
+			bad += "a"
+		}
 	}
 	rc, err := m.Source()
 	if err != nil {
@@ -366,6 +373,13 @@ func (r *runner) add(mb int, date int64, size int) string {
 				Size:    int64(len(src)),
 			},
 			Reader: bytes.NewReader(src),
+		}
+		if r.metaMode {
+			// long and odd metadata, a function of the tag (see meta.go); what is read back later is
+			// compared with it field by field
+			om := makeOddMeta(tag, date)
+			w.meta = om
+			d.Meta.Subject, d.Meta.From, d.Meta.To, d.Meta.Date = om.subject, om.from, om.to, om.date
 		}
 		id, err = r.store.AddMessage(d)
 		if err == nil {
@@ -684,6 +698,10 @@ func Exec(kind string, in []string) []string {
 		// mode direct@wrap<P>: the first P operations (deliveries to one mailbox of the file store)
 		// are written straight into the mailbox index with ids that straddle the wrap of the
 		// process-wide counter within one second (…-9998, …-9999, …-0000, …): see wrap.go
+		if i := strings.Index(r.mode, "@meta"); i >= 0 {
+			r.mode = r.mode[:i]
+			r.metaMode = true
+		}
 		if i := strings.Index(r.mode, "@wrap"); i >= 0 {
 			p := vh.AtoI(r.mode[i+5:])
 			r.mode = r.mode[:i]
